@@ -11,12 +11,26 @@ Proof. vm_compute. reflexivity. Qed.
 Lemma gen_none_ok : cfg_none_ok gen_cfg = true.
 Proof. vm_compute. reflexivity. Qed.
 
+(** join() first normalises the spelling the way Spark does (fixed defect, commit c8201a3; see known findings) *)
+Lemma gen_how_normalised : h_norm gen_cfg = true.
+Proof. reflexivity. Qed.
+
+(** without a condition only the inner join becomes the product, every other kind is kept and joined ON TRUE
+    (fixed defect, commit 838c3ee) *)
+Lemma gen_none_keeps_kind : h_none_eq gen_cfg = true.
+Proof. reflexivity. Qed.
+
 (** every documented spelling of [how] reaches the join kind Spark gives it, with that kind's flags
     (left columns only <-> semi/anti, COALESCE of the keys <-> full outer, right-to-left resolution <-> right outer) *)
 Theorem C02_how_total : forall how, In how documented ->
   exists k, spark_kind how = Some k /\ flags_for k (impl_flags gen_cfg false how) = true.
 Proof. exact (how_total gen_cfg gen_how_ok). Qed.
 Print Assumptions C02_how_total.
+
+(** ... and so does EVERY string Spark accepts (any case, any underscores): not a finite table any more *)
+Theorem C02_how_total_all : forall how k, spark_kind how = Some k -> flags_for k (impl_flags gen_cfg false how) = true.
+Proof. exact (how_total_all gen_cfg gen_how_normalised gen_how_ok). Qed.
+Print Assumptions C02_how_total_all.
 
 (** * the property at full strength: whenever PySpark accepts the program (a chain of joins followed by an optional
     select / where), the implementation returns PySpark's column list and PySpark's bag of rows *)
@@ -38,7 +52,7 @@ Print Assumptions C02_partial.
 
 (** a right outer join (as the only join) is PySpark's as long as no column name other than the keys occurs on both sides *)
 Theorem C02_right_join : forall L lbase lctes x,
-  right_dom L lbase lctes x = true ->
+  right_dom gen_cfg L lbase lctes x = true ->
   m_run gen_cfg L lbase lctes [x] FNone = sp_run L lbase [x] FNone.
 Proof. exact (right_join_first_ok gen_cfg gen_how_ok). Qed.
 Print Assumptions C02_right_join.
@@ -46,7 +60,7 @@ Print Assumptions C02_right_join.
 (** one join: PySpark's columns, and the rows are the select list applied to the SQL join (C02.Join.join) of the two inputs
     under the three-valued ON *)
 Theorem C02_single_join : forall L lbase lctes x,
-  nodupb (cols L) = true -> jstep_dom (init_st L lbase lctes) x = true ->
+  nodupb (cols L) = true -> jstep_dom gen_cfg (init_st L lbase lctes) x = true ->
   m_run gen_cfg L lbase lctes [x] FNone = sp_run L lbase [x] FNone
   /\ forall fr, m_run gen_cfg L lbase lctes [x] FNone = Some fr ->
        exists k cond sel,
@@ -110,14 +124,15 @@ Definition ctD (t : nat) := [mkCm 7 8 (Some t)].
 
 Example C02_domain_nonempty :
   prog_dom gen_cfg exA 1 ctA
-    [mkStep exB 2 (ctB 1) (OnNames ["k"]) "left_outer" false None;
+    [mkStep exB 2 (ctB 1) (OnNames ["k"]) "Left_OUTER" false None;
      mkStep exD 4 (ctD 2) (OnExprs [UBin Eq (UCol (RDf 1 3 false "v")) (UCol (RDf 2 7 false "k2"))]) "inner" false None;
      mkStep exC 3 (ctC 3) (OnNames ["k"]) "semi" false None]
     (FSelect [(UCol (RName "k"), "k"); (UCol (RDf 1 3 false "v"), "bv"); (UBin Add (UCol (RDf 0 1 false "v")) (ULit (VInt 1)), "av1")]) = true
   /\ prog_dom gen_cfg exA 1 ctA [mkStep exB 2 (ctB 1) (OnNames ["k"; "v"]) "full" false None] FNone = true
+  /\ prog_dom gen_cfg exA 1 ctA [mkStep exB 2 (ctB 1) OnNone "left_semi" false None; mkStep exC 3 (ctC 2) OnNone "FULL" false None] FNone = true
   /\ prog_dom gen_cfg exA 1 ctA [mkStep exB 2 (ctB 1) OnNone "cross" false None] (FWhere (UBin Gt (UCol (RDf 1 3 false "v")) (ULit (VInt 100)))) = true
-  /\ right_dom exA 1 ctA (mkStep exD 4 (ctD 1) (OnExprs [UBin Eq (UCol (RDf 0 1 false "k")) (UCol (RDf 1 7 false "k2"))]) "right_outer" false None) = true
-  /\ right_dom exA 1 ctA (mkStep exC 3 (ctC 1) (OnNames ["k"]) "right" false None) = true.
+  /\ right_dom gen_cfg exA 1 ctA (mkStep exD 4 (ctD 1) (OnExprs [UBin Eq (UCol (RDf 0 1 false "k")) (UCol (RDf 1 7 false "k2"))]) "right_outer" false None) = true
+  /\ right_dom gen_cfg exA 1 ctA (mkStep exC 3 (ctC 1) (OnNames ["k"]) "right" false None) = true.
 Proof. vm_compute. repeat split; reflexivity. Qed.
 
 (** * refutations of the full statement on the faithful model (each is replayed on the implementation by the check) *)
@@ -141,23 +156,6 @@ Theorem C02_refuted_right_expr_join :
 Proof. refute. Qed.
 Print Assumptions C02_refuted_right_expr_join.
 
-(** no condition and a kind other than inner/cross: executed as a product *)
-Theorem C02_refuted_on_none_semi : refutes exA ctA [mkStep exB 2 (ctB 1) OnNone "semi" false None] FNone.
-Proof. refute. Qed.
-Print Assumptions C02_refuted_on_none_semi.
-Theorem C02_refuted_on_none_left_empty_right :
-  refutes exA ctA [mkStep (mkFrame ["k"; "v"; "w"] []) 2 (ctB 1) OnNone "left" false None] FNone.
-Proof. refute. Qed.
-Print Assumptions C02_refuted_on_none_left_empty_right.
-
-(** spellings Spark lower-cases *)
-Theorem C02_refuted_upper_case_full : refutes exA ctA [mkStep exR 3 (ctC 1) (OnNames ["k"]) "FULL" false None] FNone.
-Proof. refute. Qed.
-Print Assumptions C02_refuted_upper_case_full.
-Theorem C02_refuted_upper_case_left_semi : refutes exA ctA [mkStep exB 2 (ctB 1) (OnNames ["k"]) "LEFT_SEMI" false None] FNone.
-Proof. refute. Qed.
-Print Assumptions C02_refuted_upper_case_left_semi.
-
 (** the key of a full outer name join is the COALESCE only in the join's own select list *)
 Theorem C02_refuted_full_then_select_key :
   refutes exA ctA [mkStep exR 3 (ctC 1) (OnNames ["k"]) "full" false None] (FSelect [(UCol (RName "k"), "k"); (UCol (RName "u"), "u")]).
@@ -171,7 +169,7 @@ Print Assumptions C02_refuted_full_then_name_join.
 (** a right join later in a chain resolves left-to-right: the key is the left side's *)
 Theorem C02_refuted_right_join_not_first :
   refutes exA ctA [mkStep exD 4 (ctD 1) (OnExprs [UBin Eq (UCol (RDf 0 1 false "k")) (UCol (RDf 1 7 false "k2"))]) "left" false None;
-                   mkStep (mkFrame ["k"; "u"] [[VInt 5; VInt 7]]) 3 (ctC 2) (OnNames ["k"]) "right" false] FNone.
+                   mkStep (mkFrame ["k"; "u"] [[VInt 5; VInt 7]]) 3 (ctC 2) (OnNames ["k"]) "right" false None] FNone.
 Proof. refute. Qed.
 Print Assumptions C02_refuted_right_join_not_first.
 
